@@ -24,6 +24,8 @@ import time
 from concurrent.futures import ThreadPoolExecutor
 
 ROOT = os.path.dirname(os.path.dirname(os.path.abspath(__file__)))
+SCRATCH = os.path.join(ROOT, ".work", "cwd")  # working directory of every harness process: anything a mutated
+os.makedirs(SCRATCH, exist_ok=True)             # program writes with a relative path lands here, not in /verif
 HARNESS_DIR = os.path.join(ROOT, "vf", "harness")
 PY = sys.executable
 JOBS = int(os.environ.get("VERIF_JOBS", "16"))
@@ -67,7 +69,7 @@ def _run_crosshair(path, func, params, timeout, extra_env=None):
     ]
     t0 = time.time()
     try:
-        p = subprocess.run(cmd, capture_output=True, text=True, env=env, timeout=timeout * 1.5 + 60, cwd=ROOT)
+        p = subprocess.run(cmd, capture_output=True, text=True, env=env, timeout=timeout * 1.5 + 60, cwd=SCRATCH)
         out = p.stdout + p.stderr
         rc = p.returncode
     except subprocess.TimeoutExpired as e:
@@ -130,7 +132,7 @@ def concrete(path, func, params, args_src, timeout=120):
         "print('VFRESULT ' + json.dumps(res, default=str))\n"
     )
     try:
-        p = subprocess.run([PY, "-c", code], capture_output=True, text=True, env=env, timeout=timeout, cwd=ROOT)
+        p = subprocess.run([PY, "-c", code], capture_output=True, text=True, env=env, timeout=timeout, cwd=SCRATCH)
     except subprocess.TimeoutExpired:
         return {"result": None, "explain": None, "error": "concrete replay timed out"}
     for ln in p.stdout.splitlines():
@@ -164,9 +166,11 @@ def _do(cond):
     if cond.kind == "counterexample":
         cond.concrete = concrete(cond.path, cond.func, cond.params, cond.detail["args"])
     if cond.kind == "confirmed" and cond.twin:
-        rc2, out2, secs2 = _run_crosshair(cond.path, cond.twin, cond.params, min(cond.timeout, 60))
+        # the twin stops at the first path that reaches the end, so a generous budget costs nothing when all is well
+        rc2, out2, secs2 = _run_crosshair(cond.path, cond.twin, cond.params, max(60, min(cond.timeout, 300)))
         k2, d2 = _parse(out2)
         cond.secs += secs2
+        cond.twin_kind = k2
         cond.twin_ok = k2 == "counterexample"
         cond.twin_raw = out2[-600:]
     return cond
@@ -192,8 +196,13 @@ def settle(ctx, conds, confirm, engine="XH"):
         sample = {"condition": c.name, "harness": os.path.relpath(c.path, ROOT) + "::" + c.func, "params": c.params, "verdict": c.kind}
         if c.kind == "confirmed":
             if c.twin and not c.twin_ok:
-                ctx.harness_error(f"vacuous condition {c.name}: reachability twin did not reach the end ({getattr(c, 'twin_raw', '')[-200:]!r})")
-                ctx.ob(c.name, engine, "inconclusive", secs=c.secs, detail="vacuous (twin unreachable)")
+                if getattr(c, "twin_kind", None) == "confirmed":
+                    # `post: False` confirmed over all paths: no path reaches the end - the condition is vacuous
+                    ctx.harness_error(f"vacuous condition {c.name}: no path of the reachability twin reaches the end ({getattr(c, 'twin_raw', '')[-200:]!r})")
+                    ctx.ob(c.name, engine, "inconclusive", secs=c.secs, detail="vacuous (twin confirmed unreachable)")
+                else:
+                    # the twin ran out of budget: reachability not witnessed -> not counted as discharged
+                    ctx.ob(c.name, engine, "inconclusive", secs=c.secs, detail=f"confirmed, but the reachability twin was inconclusive ({getattr(c, 'twin_kind', '?')})")
             else:
                 ctx.ob(c.name, engine, "holds", secs=c.secs, sample=sample)
         elif c.kind == "counterexample":
